@@ -77,5 +77,6 @@ for m, prop, kind in [("sigfirst", "NoLostWakeup", "inv"), ("lifo", "ExactlyOnce
                       ("nodrain", "CloseFlushesAll", "inv"), ("splitlen", "DbConsistent", "inv"), ("loadrev", "ReloadIsTheLog", "prop"),
                       ("nocap", "CapacityOnPush", "prop"), ("bigbatch", "ExecBatchBound", "inv"), ("skipwrite", "DurablePrefix", "inv")]:
     cfg("Mempool_x_%s.cfg" % m, "EXPECTED VIOLATION %s: mutant %s" % (prop, m),
-        dict(Mutant='"%s"' % m, NConsumers=1 if m in ("sigfirst", "bigbatch") else 0, MaxCrash=1 if m in ("splitlen", "loadrev") else 0),
+        dict(Mutant='"%s"' % m, NConsumers=1 if m in ("sigfirst", "bigbatch") else 0, MaxCrash=1 if m in ("splitlen", "loadrev") else 0,
+             Batch=1 if m == "bigbatch" else 2),
         inv=prop if kind == "inv" else "", props=prop if kind == "prop" else "")
